@@ -100,6 +100,9 @@ type State struct {
 	base    *State
 	parents []stParent
 	epoch   int
+	// ghostBase: for a root created by a contract-less call (havoc of everything), the state before the call.
+	// Ghost fields are specification-only state written by contract clauses alone, so they survive such a call.
+	ghostBase *State
 }
 
 func (x *FnExec) rootState() *State {
@@ -141,6 +144,8 @@ func (s *State) getHeap(key string, sort Sort) *Term {
 		for i := len(s.parents) - 2; i >= 0; i-- {
 			t = s.x.tc.Ite(s.parents[i].g, s.parents[i].s.getHeap(key, sort), t)
 		}
+	case s.ghostBase != nil && strings.HasPrefix(key, "obj:ghost_"):
+		t = s.ghostBase.getHeap(key, sort)
 	default:
 		t = s.x.tc.Sym(fmt.Sprintf("H%d|%s", s.epoch, key), sort)
 	}
